@@ -1933,7 +1933,29 @@ func (s *Service) StartWithBackoff(ctx context.Context, rp *runnablePipeline) er
 		return cerrors.FatalError(pipeline.ErrForceStop)
 	}
 
-	return s.Start(ctx, rp.pipeline.ID)
+	if err := s.Start(ctx, rp.pipeline.ID); err != nil {
+		return err
+	}
+
+	// Until Start published the new run, Stop still resolved rp - this, already
+	// ended, run - and acknowledged the request without anything left to stop.
+	// A stop that arrived after the checks above, while the restart was under
+	// way, must not be lost: apply it to the run that was just started.
+	stopRequested := false
+	select {
+	case <-rp.recoveryStop:
+		stopRequested = true
+	default:
+	}
+	if force := rp.forceStopped.Load(); stopRequested || force {
+		if newRp, ok := s.runningPipelines.Get(rp.pipeline.ID); ok && newRp != rp {
+			if stopErr := s.stopRunnablePipeline(ctx, newRp, force); stopErr != nil {
+				s.logger.Err(ctx, stopErr).Str(log.PipelineIDField, rp.pipeline.ID).
+					Msg("could not apply the stop requested during the restart")
+			}
+		}
+	}
+	return nil
 }
 
 // notify notifies all registered FailureHandlers about an error.
